@@ -13,6 +13,9 @@ VT = datagen.vartab([("v%d" % i, VDIMS[i], "int") for i in range(len(VDIMS))], D
 VDIMSB = [["a5"], ["t", "b3"]]
 VTB = datagen.vartab([("v0", ["a5"], "int"), ("v1", ["t", "b3"], "byte")], DIMS)
 CDF5 = CLASSIC + ["ubyte", "ushort", "uint", "int64", "uint64"]
+DIMSC = [("t", 0), ("a5", 5), ("b3", 3), ("d2", 2), ("g7", 7)]
+VDIMSC = [["a5", "b3"], ["t", "a5", "d2"], ["g7"]]
+VTC = datagen.vartab([("v0", VDIMSC[0], "int"), ("v1", VDIMSC[1], "int"), ("v2", VDIMSC[2], "int")], DIMSC)
 
 
 def prod(l):
@@ -66,8 +69,8 @@ def split(sub, nparts, rng):
     return parts
 
 
-def steps_for(h, rng, np, vars_, tr, vdims=None):
-    shapes = [[dict(DIMS)[d] if d != "t" else datagen.MAXREC for d in vd] for vd in (vdims or VDIMS)]
+def steps_for(h, rng, np, vars_, tr, vdims=None, dims=None):
+    shapes = [[dict(dims or DIMS)[d] if d != "t" else datagen.MAXREC for d in vd] for vd in (vdims or VDIMS)]
     out = []
     for c in h:
         k = c["c"]
@@ -191,15 +194,26 @@ def run(tier, seed):
         np = nps[n % len(nps)]
         tr = datagen.Translator(rng, vars_, DIMS, modes=(np == 1))
         execsb.append({"x": "b%d" % n, "np": np, "steps": datagen.fixture(vars_, DIMS, fmt=fmt) + steps_for(h, rng, np, vars_, tr, VDIMSB)})
+    # third schema: extents of 5 in other than the fastest dimension (strided requests of three and more rows / planes)
+    wsc = datacheck.walks(nwalk // 3, depth, seed + 9, cfg="cfg/Access_sim_c.cfg", module="Access_MC.tla")
+    execsc = []
+    for n, h in enumerate(wsc):
+        fmt = [None, "64BIT_OFFSET", "64BIT_DATA"][n % 3]
+        types = CDF5 if fmt == "64BIT_DATA" else CLASSIC
+        vars_ = [("v%d" % i, VDIMSC[i], rng.choice(types)) for i in range(len(VDIMSC))]
+        np = nps[n % len(nps)]
+        tr = datagen.Translator(rng, vars_, DIMSC, modes=(np == 1))
+        execsc.append({"x": "c%d" % n, "np": np, "steps": datagen.fixture(vars_, DIMSC, fmt=fmt) + steps_for(h, rng, np, vars_, tr, VDIMSC, DIMSC)})
+    rc_ = datacheck.run(PID, tier, seed, execsc, mc, header=lambda evs: {"vars": VTC}, to_events=serial)
     rb = datacheck.run(PID, tier, seed, execsb, mc, header=lambda evs: {"vars": VTB}, to_events=serial)
     # the external types differ between executions; the model only needs the shapes (element sizes matter to
     # the buffered-put accounting alone, which this check does not exercise)
     r = datacheck.run(PID, tier, seed, execs, mc, header=lambda evs: {"vars": VT}, to_events=serial)
-    allv, cov = r["violations"] + rb["violations"], r["coverage"]
+    allv, cov = r["violations"] + rb["violations"] + rc_["violations"], r["coverage"]
     for k in ("traces_validated_against_impl", "evaluations", "distinct_nontrivial", "trace_states", "rejected_first_pass"):
-        cov[k] += rb["coverage"][k]
+        cov[k] += rb["coverage"][k] + rc_["coverage"][k]
     cov.update({"rule": "random walks (TLC -simulate) of blocking puts and gets drawn from ALL legal (start,count,stride) of variables "
-                        "with 0,1,2,3,5 dimensions (fixed and record, three record variables interleaved; and a second schema with a single record variable of odd record size), interleaved with close+reopen; each request issued through "
+                        "with 0,1,2,3,5 dimensions (fixed and record, three record variables interleaved; a second schema with a single record variable of odd record size; a third with [5][3], [t][5][2], [7]), interleaved with close+reopen; each request issued through "
                         "a random equivalent form (var1/vara/vars/varm with imap/varn/vard, typed or flexible with derived buffer "
                         "types, converting memory types), random external types per format (CDF-1/2/5), on 1..%d processes with "
                         "the region split among them (empty parts included)" % max(nps),
@@ -210,7 +224,7 @@ def run(tier, seed):
 
 def replay(path):
     r = json.load(open(path))
-    vt = VTB if r["exec"]["x"].startswith("b") else VT
+    vt = VTB if r["exec"]["x"].startswith("b") else VTC if r["exec"]["x"].startswith("c") else VT
     bld = vlib.build("dbg")
     res, acc, rej, _ = vlib.run_validate(bld, [r["exec"]], datacheck.MODULE, datacheck.CFG_DEV, np=r["exec"].get("np", 1), par=1,
                                          header=lambda evs: {"vars": vt}, to_events=serial)
